@@ -28,13 +28,16 @@ RULE = ("plan = FeatureCollection with 0..6 features (0..15 thorough); per prope
 CASES = {"quick": 1200, "thorough": 8000}
 FUZZ_RUNS = {"thorough": 15000}     # coverage-guided leg, 8 processes (vlib/fuzz.py)
 
-KEYS = ["a", "b", "name", "é", "x y", 'q"k', "items", "self", "back\\slash", "nrow"]
+KEYS = ["a", "b", "name", "é", "x y", 'q"k', "items", "self", "back\\slash", "nrow",
+        "", "ab", "na", "type", "properties", "features", "id", "bbox"]
 TYPES = ["bool", "int", "float", "str"]
 VALS = {
     "bool": [True, False], "int": [0, 1, -7, 2**53 - 1, -2**40], "float": [0.5, -1.25, 1e300, 2.0, -0.0],
     "str": ["", "a", "é", 'q"q', "l\nm", "日本", " ", "p\u2028q", "n\u0085 x", "s\u2029"],
 }
-TOP_KEYS = ["name", "crs", 'we"ird', "back\\slash", "ünï", "bbox", "x y", "items", "tab\there", "ls\u2028x"]
+TOP_KEYS = ["name", "crs", 'we"ird', "back\\slash", "ünï", "bbox", "x y", "items", "tab\there", "ls\u2028x",
+            # names contained in / containing the names the format itself uses
+            "", "f", "s", "feat", "feature", "featuress", "typ", "types", "properties", "geometry"]
 
 _json_value = st.recursive(
     st.one_of(st.none(), st.booleans(), st.integers(-2**53, 2**53), st.sampled_from([0.5, -1.5, 1e10]),
